@@ -17,10 +17,16 @@ Driver for the Nyquist family (C13).  Lines (after the family token `nyq`):
   timebase (`common_timebase` folded), the feature branch of `_default_frequency_range`, the Nyquist frequency the grid
   is cut at, whether the poles are taken as s-plane poles, and the four predicates `isctime()`, `isctime(strict=True)`,
   `isdtime()`, `isdtime(strict=True)`: `ok <dt> <C|D|S> <N | nyq> <0|1> <0|1> <0|1> <0|1> <0|1>` or `err <Err>`.
+* `lomega <pi> <npts> <i> <ns> dt{ns} <n> om{n}` — one call of `nyquist_response` on a list of `ns` systems with these
+  timebases and the common logarithmic grid `om`: the loop over the systems (`listDefaultOmega`) is run and
+  `omega_sys` of system `i` (0-based) is printed: `ok <n> w{n}` or `err <Err>`.
+* `lgrid <cfg> <ns> (<nl> log{nl} <ni> interesting{ni}){ns}` — exponents of the common grid of a list of systems
+  (`listExponents`): `ok <lsp_min> <lsp_max>`.
 -/
 import CtrlVerif.Driver.Util
 import CtrlVerif.Model.Nyquist
 import CtrlVerif.Model.NyquistGrid
+import CtrlVerif.Model.NyquistList
 import Mathlib.Data.Rat.Floor
 
 namespace CtrlVerif.Driver.Nyquist
@@ -123,6 +129,25 @@ def hTb : P String := do
     let b := fun (x : Bool) => if x then "1" else "0"
     pure s!"ok {showDt d} {br} {nq} {b (polesInSPlane d)} {b (DtPred.isctime false d)} {b (DtPred.isctime true d)} {b (DtPred.isdtime false d)} {b (DtPred.isdtime true d)}"
 
+def hLOmega : P String := do
+  let pi ← pRat
+  let npts ← pNat
+  let i ← pNat
+  let dts ← pList pDt
+  let om ← pList pRat
+  match listDefaultOmega pi npts om dts with
+  | .error e => pure (showErr e)
+  | .ok ls =>
+    match ls[i]? with
+    | none => pure (showErr .indexRange)
+    | some l => pure ("ok " ++ showRats l)
+
+def hLGrid : P String := do
+  let cfg ← pRat
+  let fs ← pList (do let logs ← pList pRat; let interesting ← pList pRat; pure (logs, interesting))
+  let e := listExponents cfg fs
+  pure s!"ok {showRat e.1} {showRat e.2}"
+
 def handle (toks : List String) : String :=
   match toks with
   | "count" :: rest => runLine hCount rest
@@ -132,6 +157,8 @@ def handle (toks : List String) : String :=
   | "grid" :: rest => runLine hGrid rest
   | "omega" :: rest => runLine hOmega rest
   | "tb" :: rest => runLine hTb rest
+  | "lomega" :: rest => runLine hLOmega rest
+  | "lgrid" :: rest => runLine hLGrid rest
   | op :: _ => s!"bad-op nyq:{op}"
   | [] => "bad-op nyq:empty"
 
